@@ -216,7 +216,9 @@ func (api *API) encodeStructFields(
 			fieldType := sField.fType
 			if fieldValue.Kind() == reflect.Ptr {
 				if fieldValue.IsNil() {
-					continue
+					// the decoder always allocates and reads an embedded pointer struct,
+					// so skipping it here would produce bytes that can't be decoded.
+					return ierrors.Errorf("unexpected nil pointer for embedded struct field %s", sField.name)
 				}
 				fieldValue = fieldValue.Elem()
 				fieldType = fieldType.Elem()
